@@ -15,6 +15,7 @@ from vsc.model.constraint_scope_model import ConstraintScopeModel
 from vsc.model.constraint_soft_model import ConstraintSoftModel
 from vsc.model.constraint_unique_model import ConstraintUniqueModel
 from vsc.model.expr_partselect_model import ExprPartselectModel
+from vsc.model.expr_indexed_dynref_model import ExprIndexedDynRefModel
 from vsc.model.dist_weight_expr_model import DistWeightExprModel
 from vsc.model.expr_array_subscript_model import ExprArraySubscriptModel
 from vsc.model.expr_bin_model import ExprBinModel
@@ -248,6 +249,14 @@ class ConstraintCopyBuilder(ModelVisitor):
             self._expr = e
         else:
             super().visit_expr_literal(e)
+            
+    def visit_expr_indexed_dynref(self, e):
+        if self.do_copy_level > 0:
+            # The reference to the dynamic constraint of the object 
+            # that the (copied) path designates
+            self._expr = ExprIndexedDynRefModel(self.expr(e.root), e.idx)
+        else:
+            super().visit_expr_indexed_dynref(e)
             
     def visit_expr_partselect(self, e):
         if self.do_copy_level > 0:
